@@ -68,8 +68,21 @@ func checkTile(c *mc.Ctx, t maptile.Tile, bounds bool) {
 		if !found || len(sib) != 4 {
 			c.Failf("siblings", "%v siblings %v", t, sib)
 		}
-	} else if t.Parent() != t {
-		c.Failf("parent", "parent of the root is %v", t.Parent())
+	} else {
+		if t.Parent() != t {
+			c.Failf("parent", "parent of the root is %v", t.Parent())
+		}
+		// the root: "the 4 tiles that share this tile's parent" are four distinct valid tiles whose parent is the root
+		seen := map[maptile.Tile]bool{}
+		for _, s := range t.Siblings() {
+			if !s.Valid() || s.Parent() != t.Parent() || seen[s] {
+				c.Failf("siblings", "sibling %v of the root (valid=%v, parent %v)", s, s.Valid(), s.Parent())
+			}
+			seen[s] = true
+		}
+		if len(seen) != 4 {
+			c.Failf("siblings", "the root has %d distinct siblings: %v", len(seen), t.Siblings())
+		}
 	}
 	if z <= 30 {
 		ch := t.Children()
